@@ -322,6 +322,16 @@ impl Send {
             // the reset frame before transitioning the stream inside
             // `reclaim_all_capacity`.
             self.prioritize.clear_queue(buffer, stream);
+        } else {
+            // Only the HEADERS that open the stream are kept: whatever was
+            // queued behind them (DATA, trailers) is unsent data of a reset
+            // stream and is dropped, together with the capacity requested
+            // for it.
+            let first = stream.pending_send.pop_front(buffer);
+            self.prioritize.clear_queue(buffer, stream);
+            if let Some(frame) = first {
+                stream.pending_send.push_front(buffer, frame);
+            }
         }
 
         let frame = frame::Reset::new(stream.id, reason);
